@@ -869,6 +869,63 @@ def run(ctx: Ctx) -> None:
     ctx.assumptions += TRUSTED
 
 
+def rejudge_two_statements(ctx: Ctx, scratch: str, elems: T.List[str]) -> bool:
+    """a unit-stream disagreement judged by the property: a minimal manifest with the real NinjaRule and two real
+    NinjaBuildElements carrying the same arguments — one run directly, one through a response file, in both orders — is
+    written by the implementation, read back, expanded by the Ninja specification and handed to the real /bin/sh
+    (direct) and the buildargv specification (response file); each must yield exactly the arguments"""
+    from . import c03_e2e
+    nb, _be, _ml, _U = impl()
+    elems = [e for e in elems if isinstance(e, str) and e != '&&' and '\n' not in e and '\0' not in e]
+    if not elems:
+        return False
+    for order in ((False, True), (True, False)):
+        try:
+            rule = nb.NinjaRule('R', ['d'], ['$ARGS'], 'desc', rspable=True)
+            text = ''
+            for n, use_rsp in enumerate(order):
+                el = nb.NinjaBuildElement(set(), [f'o{n}'], 'R', ['i'])
+                el.rule = rule
+                setattr(el, '_should_use_rspfile', use_rsp)
+                el.add_item('ARGS', list(elems))
+                buf = io.StringIO()
+                el.write(buf)
+                text += buf.getvalue()
+            rule.refcount = rule.rsprefcount = 1
+            buf = io.StringIO()
+            rule.write(buf)
+            path = os.path.join(scratch, 'two.ninja')
+            with open(path, 'w', encoding='utf-8', newline='\n') as f:
+                f.write(buf.getvalue() + text)
+            rules, builds = c03_e2e.read_manifest(path)
+        except Exception as e:      # noqa: BLE001 - the implementation refused / wrote something unreadable
+            ctx.notes.append(f'rejudge: {type(e).__name__} for {elems!r}')
+            return False
+        for st in builds:
+            rb = rules.get(st['rule'], [])
+            head = '|'.join([lenc([k for k, _ in rb]), lenc([v for _, v in rb]), lenc([k for k, _ in st['vars']]),
+                             lenc([v for _, v in st['vars']]), lenc(st['ins']), lenc(st['outs'])])
+            is_rsp = st['rule'].endswith('_RSP')
+            a = ctx.driver('quote', [f'edge {head}|{enc("rspfile_content" if is_rsp else "command")}'])[0]
+            if not a.startswith('ok:'):
+                got: T.Any = 'not valid Ninja text: ' + a
+            elif is_rsp:
+                got = ldec(ctx.driver('quote', [f'bav {a[3:]}'])[0])
+            else:
+                w = sh_words(dec(a[3:]), scratch)
+                got = w[0] if w and len(w) == 1 else w
+            ctx.count()
+            if got != elems:
+                how = 'through a response file' if is_rsp else 'directly'
+                ctx.violation(f'two-statements:{elems!r}:{order}:{is_rsp}'.replace(' ', '␣'),
+                              f'the same arguments in two build statements (first {"_RSP" if order[0] else "plain"}, then '
+                              f'{"_RSP" if order[1] else "plain"}): the statement run {how} gives the tool {got!r} instead of '
+                              f'{elems!r}', {'args': elems, 'statement_order_rsp': list(order), 'failing_statement_rsp': is_rsp,
+                                             'position': None, 'manifest': buf.getvalue() + text})
+                return True
+    return False
+
+
 def search(ctx: Ctx, disagreements: T.List[dict]) -> None:
     """failing-input search: the layer oracle (quote with the implementation, split with the real consumer) around the
     strings on which model and implementation differ, then a deeper end-to-end pass"""
@@ -888,6 +945,29 @@ def search(ctx: Ctx, disagreements: T.List[dict]) -> None:
                     collect(y)
         for d in disagreements:
             collect(d.get('input'))
+        # unit-stream disagreements about quoting are re-judged on a two-statement manifest first
+        if ctx.model_available:
+            tried = 0
+            for d in disagreements:
+                inp = d.get('input')
+                if d.get('kind') == 'var' and isinstance(inp, (list, tuple)) and len(inp) == 4:
+                    cands = [list(inp[3])]
+                elif d.get('kind') == 'rule' and isinstance(inp, (list, tuple)):
+                    cands = [[x[1] for part in inp[1:] for x in part if isinstance(x, (list, tuple)) and len(x) == 2]]
+                elif d.get('kind') in ('shq', 'rspq', 'nq0') and isinstance(inp, str):
+                    cands = [[inp]]
+                else:
+                    continue
+                for c in cands:
+                    tried += 1
+                    if rejudge_two_statements(ctx, scratch, c):
+                        return
+                if tried > 60:
+                    break
+            # the memoised / shared-state family: arguments with the characters the two quoting functions treat differently
+            for c in (['a\\b'], ["it's", 'a\\b c'], ['$x', '"q"\\'], [s for s in seeds if '\\' in s][:3]):
+                if c and rejudge_two_statements(ctx, scratch, c):
+                    return
         pool = list(dict.fromkeys(seeds))[:200] + short_strings(2)
         for s in pool:
             if '\0' in s:
